@@ -1185,7 +1185,7 @@ def element_cases(rng, tier, v):
             out = observe_element(oS.element(inp), inp)
         except ValueError:
             out = 'BValueErr'
-        except TypeError:
+        except Exception:          # TypeError, or anything else (then it shows up as a mismatch)
             out = 'BTypeErr'
         t = '{| x_v := %s; x_S := %s; x_inp := %s; x_out := %s |}' % (vv, coq_obj(S), term, out)
         cs.add(t, {'S': repr(S)[:300], 'inp': term[:300], 'out': out[:200]}, (repr(S), term))
@@ -1447,6 +1447,18 @@ def probe_element(rng, tier, out):
                                        "el = oS.element(xo)\nok = (el is not xo) and (el in oS) and np.array_equal(H._flat(el), H._expected_flat_el(xo, S))\n" % (X,)))
             except Exception:
                 pass
+        # no-copy fast paths (docstrings: "a copy is avoided whenever possible"): an array of the right
+        # dtype and shape is wrapped; an element of the tspace is wrapped by a discretized space
+        if kind in ('tensor', 'discr') and oS.size > 0:
+            arr = np.zeros(oS.shape, dtype=oS.dtype)
+            ok = _safe(lambda: np.shares_memory(np.asarray(oS.element(arr)), arr))
+            out.append(C.Probe(ok, 'element-nocopy-array-%s' % kind, 'S.element(array of the right dtype) shares its memory',
+                               head + "arr = np.zeros(oS.shape, dtype=oS.dtype)\nok = bool(np.shares_memory(np.asarray(oS.element(arr)), arr))\n"))
+        if kind == 'discr' and oS.size > 0:
+            te = oS.tspace.zero()
+            ok = _safe(lambda: np.shares_memory(np.asarray(oS.element(te)), np.asarray(te)))
+            out.append(C.Probe(ok, 'element-nocopy-discr-tspace', 'discr.element(tspace element) wraps it without copying',
+                               head + "te = oS.tspace.zero()\nok = bool(np.shares_memory(np.asarray(oS.element(te)), np.asarray(te)))\n"))
         # (3) incompatible shapes raise (ValueError)
         bad = _input_for(rng, S, good=False)
         try:
